@@ -26,6 +26,15 @@ def cases(tier, rng, run):
         kind = "method" if rng.random() < 0.2 else "func"
         style = rng.choice(["pos", "kw", "mixed", "fwd", "kwonly", "posonly"] + (["kwself", "kwself"] if kind == "method" else []))
         out.append(Case(c.call_line(kind, style, prov=(("self" if c.scope else "-") if kind == "method" else None), omit=omit, explicit=rng.random() < 0.5), "call", {"ctx": c}))
+    # functions whose ONLY dltype hint is the return annotation (factories, loaders): no parameter at all, or parameters of plain types —
+    # the result is checked all the same: the body has run once, the violating value is not handed to the caller
+    rets = [("S|FloatTensor,0,a b", "T,0:float32,2"), ("S|FloatTensor,0,a b", "T,1:int32,2.3"), ("S|FloatTensor,0,3 a", "T,0:float32,2.5"), ("S|FloatTensor,0,a a", "T,2:float32,2.3"),
+            ("T|FloatTensor,0,a b;FloatTensor,0,a", "U:T,0:float32,2.3;T,0:float32,3"), ("S|FloatTensor,0,a b", "X"), ("S|FloatTensor,0,a b", "N"), ("S|IntTensor,1,a", "T,0:float32,4")]
+    for spec, v in rets:
+        for style in ("pos", "kw"):
+            for params in ([], ["P|n|S|-|X"], ["P|n|S|-|X", "P|opts|S|-a|X"], ["PD|n|S|-|X"]):
+                out.append(Case("\t".join(["CALL", f"func:{style}", "-", "", *params, f"R|{spec}|{v}"]), "return-only"))
+            out.append(Case("\t".join(["CALL", "method:pos", "self", "k:3", f"R|{spec}|{v}"]), "return-only"))
     return out
 
 
@@ -50,10 +59,10 @@ def judge(case, impl_out, spec):
             case.meta["nt"] = True
             if calls != "1":
                 return "only the return value violates, but the body ran " + str(calls) + " times"
-            if callcommon.field(impl_out, "pre") != "1":
-                return "the body ran before the argument check"
             if end == "ok":
                 return "the return value violates its annotation but was handed to the caller"
+            if callcommon.field(impl_out, "pre") != "1":
+                return "the body ran before the argument check"
     return None
 
 
